@@ -669,6 +669,7 @@ def _run_sim(case):
     sim = Simulator(net, algo, events, datetime(2020, 1, 1), period=case["period"], verbose=False)
     obs = {"infra": infra_obs(algo.interface), "calls": rec.calls, "mode": "sim"}
     err = None
+    pending = {}
     with warnings.catch_warnings(record=True) as wlist:
         warnings.simplefilter("always")
         try:
@@ -680,17 +681,18 @@ def _run_sim(case):
                 rec.net = sim.network
                 sim.update_scheduler(algo)
                 obs["roundtrip"] = True
-                by_id = dict(sim.ev_history)
-                for _, ev in sim.event_queue.queue:
-                    if getattr(ev, "ev", None) is not None:
-                        by_id.setdefault(ev.ev.session_id, ev.ev)
+                pending = {ev.ev.session_id: ev.ev for _, ev in sim.event_queue.queue
+                           if getattr(ev, "ev", None) is not None}
                 sim.run()
-                by_id.update(sim.ev_history)
-                evs = [by_id.get(e["session"], old) for e, old in zip(case["evs"], evs)]
         except _Captured as e:
             err = "scheduler:" + str(e)
         except Exception as e:  # noqa
             err = I.err_name(e) + ":" + str(e)[:200]
+    if obs.get("roundtrip"):
+        # the EV objects of the restored simulator (also when the resumed run raised)
+        by_id = dict(pending)
+        by_id.update(sim.ev_history)
+        evs = [by_id.get(e["session"], old) for e, old in zip(case["evs"], evs)]
     obs["sim_err"] = err
     obs["warnings"] = sorted({str(w.message)[:120] for w in wlist if "Invalid schedule" in str(w.message)})
     obs["energies"] = [[ev.session_id, float(ev.requested_energy), float(ev.energy_delivered)] for ev in evs]
